@@ -1,7 +1,7 @@
 (* C09 - elementary operators compute exactly their documented mathematical action. *)
 From MrVerif Require Import Base.Prelude Base.StarRing Base.Sums Model.OpAlg Model.ZeroPad Model.ElemOps
   Proofs.OpAlgProofs Proofs.ElemOpsProofs Proofs.AlongProofs Proofs.ElemOpsWf Proofs.ZeroPadProofs
-  Model.Wavelet Proofs.WaveletProofs Proofs.WaveletWf Proofs.WaveletPRProofs Proofs.AlongGramProofs Proofs.Wavelet2DGramProofs.
+  Model.Wavelet Proofs.WaveletProofs Proofs.WaveletWf Proofs.WaveletPRProofs Proofs.AlongGramProofs Proofs.Wavelet2DGramProofs Proofs.Wavelet3DGramProofs.
 
 (* zero padding / cropping keeps the centre sample at index n//2, for all sizes of either parity *)
 Theorem C09_pad_centre : forall (R : StarRing) old new (x : nat -> R), (0 < old)%nat -> (0 < new)%nat ->
@@ -132,3 +132,18 @@ Theorem C09_wavelet_2d_isometry : forall (R : StarRing) level L n1 n2 (flo fhi g
     adj (wavedec2_op level L n1 n2 flo fhi glo ghi) (fwd (wavedec2_op level L n1 n2 flo fhi glo ghi) x) j = x j.
 Proof. exact wavedec2_isometry. Qed.
 Print Assumptions C09_wavelet_2d_isometry.
+
+(* ---- three dimensions (wavedec3 / waverec3): one level gives c^3 times the identity under the perfect-reconstruction condition, and for
+   orthonormal filter banks W^H W = identity at every number of levels, for every volume size ---- *)
+Theorem C09_wavelet_3d_gram : forall (R : StarRing) L n1 n2 n3 (flo fhi glo ghi : nat -> R) (c : R),
+  (2 <= L)%nat -> (1 <= n1)%nat -> (1 <= n2)%nat -> (1 <= n3)%nat -> pr_cond L flo fhi glo ghi c ->
+  forall x j, (j < (n1 * n2) * (n3 * 1))%nat ->
+    adj (dwt3 L n1 n2 n3 flo fhi glo ghi) (fwd (dwt3 L n1 n2 n3 flo fhi glo ghi) x) j = kmul c (kmul c (kmul c (x j))).
+Proof. exact dwt3_gram. Qed.
+Print Assumptions C09_wavelet_3d_gram.
+Theorem C09_wavelet_3d_isometry : forall (R : StarRing) level L n1 n2 n3 (flo fhi glo ghi : nat -> R),
+  (2 <= L)%nat -> (1 <= n1)%nat -> (1 <= n2)%nat -> (1 <= n3)%nat -> pr_cond L flo fhi glo ghi k1 ->
+  forall x j, (j < (n1 * n2) * (n3 * 1))%nat ->
+    adj (wavedec3_op level L n1 n2 n3 flo fhi glo ghi) (fwd (wavedec3_op level L n1 n2 n3 flo fhi glo ghi) x) j = x j.
+Proof. exact wavedec3_isometry. Qed.
+Print Assumptions C09_wavelet_3d_isometry.
